@@ -104,7 +104,7 @@ func isPointerShaped(t types.Type) bool {
 	return false
 }
 
-func (c *Ctx) NilPtr() Ptr { return Ptr{c.Const(32, 0), c.Const(64, 0)} }
+func (c *Ctx) NilPtr() Ptr { return Ptr{c.Const(RgnW, 0), c.Const(64, 0)} }
 
 // Zero value of a type.
 func (c *Ctx) Zero(t types.Type) Value {
@@ -132,7 +132,7 @@ func (c *Ctx) Zero(t types.Type) Value {
 	case *types.Slice:
 		return Slice{c.NilPtr(), c.Const(64, 0), c.Const(64, 0)}
 	case *types.Interface:
-		return Iface{c.Const(32, 0), c.NilPtr()}
+		return Iface{c.Const(TypW, 0), c.NilPtr()}
 	case *types.Struct:
 		s := Struct{}
 		for i := 0; i < u.NumFields(); i++ {
@@ -164,15 +164,15 @@ func (c *Ctx) Fresh(t types.Type, prefix string, low bool, as *[]*Term) Value {
 	fp := func(pfx string) Ptr {
 		var r *Term
 		if low {
-			r = c.FreshLowVar(pfx+".rgn", BV(32))
+			r = c.FreshLowVar(pfx+".rgn", BV(RgnW))
 		} else {
-			r = c.FreshVar(pfx+".rgn", BV(32))
+			r = c.FreshVar(pfx+".rgn", BV(RgnW))
 		}
 		o := c.FreshVar(pfx+".off", BV(64))
 		if as != nil {
 			*as = append(*as, c.Ult(o, c.Const(64, 1<<47)))
 			// nil has offset 0
-			*as = append(*as, c.Implies(c.Eq(r, c.Const(32, 0)), c.Eq(o, c.Const(64, 0))))
+			*as = append(*as, c.Implies(c.Eq(r, c.Const(RgnW, 0)), c.Eq(o, c.Const(64, 0))))
 		}
 		return Ptr{r, o}
 	}
@@ -209,7 +209,7 @@ func (c *Ctx) Fresh(t types.Type, prefix string, low bool, as *[]*Term) Value {
 		}
 		return Slice{p, l, cp}
 	case *types.Interface:
-		ty := c.FreshVar(prefix+".typ", BV(32))
+		ty := c.FreshVar(prefix+".typ", BV(TypW))
 		return Iface{ty, fp(prefix + ".data")}
 	case *types.Struct:
 		s := Struct{}
@@ -314,7 +314,7 @@ func (c *Ctx) IteVal(cond *Term, a, b Value) Value {
 }
 
 func (c *Ctx) PtrEq(a, b Ptr) *Term { return c.And(c.Eq(a.R, b.R), c.Eq(a.O, b.O)) }
-func (c *Ctx) IsNil(p Ptr) *Term    { return c.Eq(p.R, c.Const(32, 0)) }
+func (c *Ctx) IsNil(p Ptr) *Term    { return c.Eq(p.R, c.Const(RgnW, 0)) }
 
 // EqVal builds structural equality for comparable values; strings compare via the uninterpreted
 // predicate streq over (region, offset, len) triples plus length equality.
@@ -345,7 +345,7 @@ func (c *Ctx) EqVal(a, b Value, h *Heap) *Term {
 	case Iface:
 		y := b.(Iface)
 		// nil comparison is exact; otherwise type ids and data words
-		return c.And(c.Eq(x.Typ, y.Typ), c.Or(c.Eq(x.Typ, c.Const(32, 0)), c.PtrEq(x.P, y.P)))
+		return c.And(c.Eq(x.Typ, y.Typ), c.Or(c.Eq(x.Typ, c.Const(TypW, 0)), c.PtrEq(x.P, y.P)))
 	case Struct:
 		y := b.(Struct)
 		var cs []*Term
